@@ -15,7 +15,7 @@ From Coq Require Import ZArith List Bool Arith.
 From SK Require Import Model.Skel Model.Stm Model.Sequence Model.SequenceSk
      Spec.Sequence
      Proofs.Sequence Proofs.SequenceMulti Proofs.SequenceIds Proofs.SequenceSkel
-     Gen.Skeleton Gen.SkelTree.
+     Gen.Skeleton Gen.SkelTree Gen.XSequence.
 Import ListNotations.
 Open Scope Z_scope.
 
@@ -161,6 +161,62 @@ Theorem C03_seq_eof_applies_eof_action : forall sh k acc ln,
   seq_eof sh (k, acc) ln = apply_eof (eof_action sh k) acc ln.
 Proof. exact seq_eof_is_action. Qed.
 
+(* --- T1: SequenceSearchDef and SequenceSearchResults ------------------- *)
+(* start() / reset() / stop() as extracted from searchdef.py (programs over
+   the fields _mark, _section_id, completed_sections; `started` is
+   `_mark == x_seqdef_started_mark`; a uuid4 draw is the next counter value)
+   ARE the model's do_start / do_reset / do_stop: start draws a fresh id
+   and marks started; reset only clears the mark; stop clears the mark,
+   records the section just closed and draws a fresh id *)
+Theorem C03_seqdef_start_is_do_start : forall k comp,
+  run_dstms x_seqdef_started_mark x_seqdef_start (k, comp) = (do_start k, comp).
+Proof. intros [s c n] comp. vm_compute. reflexivity. Qed.
+
+Theorem C03_seqdef_reset_is_do_reset : forall k comp,
+  run_dstms x_seqdef_started_mark x_seqdef_reset (k, comp) = (do_reset k, comp).
+Proof. intros [s c n] comp. vm_compute. reflexivity. Qed.
+
+Theorem C03_seqdef_stop_is_do_stop : forall k comp,
+  run_dstms x_seqdef_started_mark x_seqdef_stop (k, comp)
+  = (do_stop k, comp ++ [cur k]).
+Proof. intros [s c n] comp. vm_compute. reflexivity. Qed.
+
+(* a new definition is not started (init_ctl); current_section_id is the
+   field start()/stop() assign *)
+Theorem C03_seqdef_init_not_started : forall k comp,
+  started (fst (run_dstms x_seqdef_started_mark x_seqdef_init (k, comp)))
+  = false /\ x_seqdef_current_is_section_id = true.
+Proof. intros [s c n] comp. vm_compute. split; reflexivity. Qed.
+
+(* the start / end / body part is tagged "<tag>-start" / "-end" / "-body"
+   (the role of a result is read from this suffix) *)
+Theorem C03_seqdef_part_tags :
+  part_suffixes x_seqdef_links x_seqdef_tag_suffix
+  = expected_part_suffixes.
+Proof. vm_compute. reflexivity. Qed.
+
+(* SequenceSearchResults.add as extracted from result.py (append to the
+   key's list, or a new singleton list) is the model's dictionary add *)
+Theorem C03_seqres_add_is_alist_add : forall (k : nat) (x : part) (d : dict),
+  alist_get k (alist_add k x d)
+  = x_seqres_add (existsb (Nat.eqb k) (keys d)) (alist_get k d) x.
+Proof. exact (@dict_add_is part). Qed.
+
+(* SequenceSearchResults.remove as extracted from result.py (only if the key
+   is present: keep the results whose section id differs - the D3 repair)
+   is what a restart does to the model's dictionary *)
+Theorem C03_seqres_remove_is_filter : forall (k s : nat) (d : dict),
+  alist_get k (dict_apply_op k 0 d (Remove s))
+  = x_seqres_remove fst (existsb (Nat.eqb k) (keys d)) (alist_get k d) s.
+Proof. exact dict_remove_is. Qed.
+
+(* every result of a sequence part carries its section id and its sequence
+   id: SearchResult.__init__ assigns both before it may return early
+   (store_result_contents=False), so [Add r s v] always files the result
+   under the definition's key with section id s *)
+Theorem C03_result_always_linked : x_result_linked_before_any_return = true.
+Proof. reflexivity. Qed.
+
 (* --- non-vacuity ------------------------------------------------------- *)
 (* class codes: 1 = S, 2 = E, 4 = B, 3 = S+E, 7 = S+E+B, 0 = none *)
 Definition ex_word : list cline :=
@@ -236,3 +292,11 @@ Print Assumptions C03_process_sequence_results_shape.
 Print Assumptions C03_sequence_search_is_ctl_step.
 Print Assumptions C03_process_sequence_results_is_eof_action.
 Print Assumptions C03_seq_eof_applies_eof_action.
+Print Assumptions C03_seqdef_start_is_do_start.
+Print Assumptions C03_seqdef_reset_is_do_reset.
+Print Assumptions C03_seqdef_stop_is_do_stop.
+Print Assumptions C03_seqdef_init_not_started.
+Print Assumptions C03_seqdef_part_tags.
+Print Assumptions C03_seqres_add_is_alist_add.
+Print Assumptions C03_seqres_remove_is_filter.
+Print Assumptions C03_result_always_linked.
